@@ -415,9 +415,25 @@ class _Spelling(ast.NodeTransformer):
   def _seq_display(e):
     return isinstance(e, (ast.List, ast.ListComp))
 
+  _numpy_depth = 0
+
+  def visit_FunctionDef(self, n):
+    # numpy code: `a = a / b` builds a new array (float result, the caller's
+    # array untouched) while `a /= b` divides IN PLACE (fails for an integer
+    # array, mutates the caller's data): different programs, left as written
+    uses_np = any(isinstance(x, ast.Attribute) and isinstance(
+        x.value, ast.Name) and x.value.id == 'np' for x in ast.walk(n))
+    if uses_np:
+      self._numpy_depth += 1
+    try:
+      return self.generic_visit(n)
+    finally:
+      if uses_np:
+        self._numpy_depth -= 1
+
   def visit_Assign(self, n):
     self.generic_visit(n)
-    if len(n.targets) == 1 and isinstance(
+    if self._numpy_depth == 0 and len(n.targets) == 1 and isinstance(
         n.targets[0], (ast.Name, ast.Subscript, ast.Attribute)) and \
         isinstance(n.value, ast.BinOp) and _same_text(
             n.targets[0], n.value.left) and not self._seq_display(
